@@ -8,7 +8,7 @@ import re
 
 TIE = ["Nsq.Tie.Registry"]
 TIE_PROTO = ["Nsq.Tie.Registry", "Nsq.Tie.RegistryProto"]
-HARNESS = ["e4/e4_core_test.go", "e4/registry_test.go", "e4/proto_test.go", "e4/race_test.go"]
+HARNESS = ["e4/e4_core_test.go", "e4/registry_test.go", "e4/proto_test.go", "e4/race_test.go", "e4/liveness_test.go"]
 
 TRUSTED = [
     "translator tools/go2lean (fact kinds routes3, errsites, stmts, calls, consts, regex) reads the "
